@@ -530,8 +530,13 @@ func validateNames(b *backend, data *inputBundle, names []string) string {
 		// Variances are noted in-line
 
 		if data.role.AllowLocalhost {
-			if reducedName == "localhost" ||
-				reducedName == "localdomain" ||
+			// Compare the full name here, not the reduced one: for a wildcard
+			// such as "*.localhost" the reduced name is "localhost", but a
+			// wildcard covers the subdomains of localhost and is only allowed
+			// by the AllowSubdomains branch below (as for AllowedDomains,
+			// where AllowBareDomains compares the full name as well).
+			if name == "localhost" ||
+				name == "localdomain" ||
 				(isEmail && emailDomain == "localhost") ||
 				(isEmail && emailDomain == "localdomain") {
 				continue
